@@ -277,3 +277,35 @@ func RelOp(op token.Token) bool {
 	}
 	return false
 }
+
+// RetOperands returns the values a Return instruction returns, looking through
+// the spill go/ssa inserts in functions with defers (results are stored to
+// result allocs, `rundefers`, then reloaded).
+func RetOperands(ret *ssa.Return) []ssa.Value {
+	out := make([]ssa.Value, len(ret.Results))
+	for i, v := range ret.Results {
+		out[i] = v
+		u, ok := v.(*ssa.UnOp)
+		if !ok || u.Op != token.MUL {
+			continue
+		}
+		al, ok := u.X.(*ssa.Alloc)
+		if !ok {
+			continue
+		}
+		// last store to the alloc in the same block before the load
+		var last ssa.Value
+		for _, in := range ret.Block().Instrs {
+			if in == ssa.Instruction(u) {
+				break
+			}
+			if st, ok := in.(*ssa.Store); ok && st.Addr == al {
+				last = st.Val
+			}
+		}
+		if last != nil {
+			out[i] = last
+		}
+	}
+	return out
+}
